@@ -158,6 +158,16 @@ def _build(tree, cdir):
     if p.returncode != 0:
         raise BuildError('harnesses do not compile natively against this tree:\n' + p.stdout[-6000:])
     shutil.copy(os.path.join(rdir, 'debug/examples/verif_replay'), os.path.join(cdir, 'replay-dev'))
+    # E2 observation / replay tool: the real parsers, plain build (no cfg)
+    p = sh(['cargo', 'build', '--offline', '--example', 'verif_e2', '--target-dir', rdir], cwd=tree, env=env, check=False, timeout=1200)
+    if p.returncode != 0:
+        raise BuildError('E2 tool does not compile against this tree:\n' + p.stdout[-4000:])
+    shutil.copy(os.path.join(rdir, 'debug/examples/verif_e2'), os.path.join(cdir, 'e2tool'))
+    # keep the regenerated parser files: E2 reads the four grammars back from them
+    os.makedirs(os.path.join(cdir, 'grammar'), exist_ok=True)
+    for rel in ('src/lib/interpreter/interpreter.rs', 'src/lib/preprocessor/preprocessor.rs',
+                'src/lib/data_parser/data_parser.rs', 'src/driver/print.rs'):
+        shutil.copy(os.path.join(tree, rel), os.path.join(cdir, 'grammar', os.path.basename(rel)))
     p = sh(['cargo', 'build', '--offline', '--release', '--example', 'verif_replay', '--target-dir', rdir], cwd=tree,
            env=env, check=False, timeout=1200)
     if p.returncode == 0:
